@@ -24,6 +24,8 @@ RULE = (
     "(one case in four: first of all a file class of the OTHER storage that declares the same component types reads the content) "
     "element's read() and caught by the application; the observed read is judged exactly as the model computes it for its content ALONE (earlier reads leave nothing behind), and the "
     "elements of the file that File.read RETURNS are counted as well as the append() calls (elements = returned elements minus the placeholder). "
+    "Route: one text case in four (register, block and section files alike; choices from a further random stream of their own) hands File.read a PATH instead of the content: the content lies on disk in the "
+    "ENCODING the file class declares (utf-8 or latin-1), its lines ended by LF, CR LF or a lone CR, in half of these cases with a few characters replaced by non-ASCII ones (a character is then not a byte, and a line end not one character); the earlier reads of the history go the same way, and the read is judged exactly as the model computes it for the TEXT (lines ended by LF) that such a file holds. "
     "non-trivial = non-empty content; distinct by full case."
 )
 ASSUMPTIONS = [
@@ -184,6 +186,22 @@ def describe_history(case):
     return "after " + " and ".join(parts) + " with the same file class: "
 
 
+def routed(case, F):
+    """how a content reaches F.read: as it is (in memory), or — case["path"] = {"enc", "eol"} — as the PATH of a
+    file on disk that holds it in the declared ENCODING with the line ends of the platform it came from"""
+    io = case.get("path")
+    if not io:
+        return lambda content: F.read(content)
+    return lambda content: fsup.read_text(F, content.replace("\n", io["eol"]).encode(io["enc"]), io)
+
+
+def describe_route(case):
+    io = case.get("path")
+    if not io:
+        return ""
+    return f"content read from a PATH (encoding {io['enc']}, lines ended by {io['eol']!r}): "
+
+
 def twin_of(x: bytes) -> bytes:
     return bytes(b if b < 128 else 0x7A for b in x)
 
@@ -253,14 +271,15 @@ def run_impl(case):
                 from cfinterface.components.defaultregister import DefaultRegister
                 from cfinterface.data.registerdata import RegisterData
 
-                RF, rclasses = fsup.mk_register_file(case["regs"], "BINARY" if binary else "TEXT")
+                RF, rclasses = fsup.mk_register_file(case["regs"], "BINARY" if binary else "TEXT", io=case.get("path"))
                 nt = len(case["regs"])
+                rd = routed(case, RF)
 
                 def read_bin(content, b=budget):
                     return count_appends(RegisterData, b, lambda: RF.read(content, linesize=case["linesize"]) if case.get("linesize_kw") else RF.read(content, case["linesize"]), nt)
 
                 def read_txt(content, b=budget):
-                    return count_appends(RegisterData, b, lambda: RF.read(content), nt)
+                    return count_appends(RegisterData, b, lambda: rd(content), nt)
 
                 def other_reg(content):
                     # (under the step budget: with the other storage the same types may never consume, e.g. a
@@ -284,10 +303,11 @@ def run_impl(case):
                 from cfinterface.components.defaultblock import DefaultBlock
                 from cfinterface.data.blockdata import BlockData
 
-                BF, bclasses = fsup.mk_block_file(case["blocks"], binary)
+                BF, bclasses = fsup.mk_block_file(case["blocks"], binary, io=case.get("path"))
+                rd = routed(case, BF)
 
                 def read_blk(content, b=budget):
-                    return count_appends(BlockData, b, lambda: BF.read(content), len(case["blocks"]))
+                    return count_appends(BlockData, b, lambda: rd(content), len(case["blocks"]))
 
                 def other_blk(content):
                     O = other_storage_class(BF, "BLOCKS", binary)
@@ -298,10 +318,11 @@ def run_impl(case):
             from cfinterface.components.defaultsection import DefaultSection
             from cfinterface.data.sectiondata import SectionData
 
-            SF, sclasses = fsup.mk_section_file(case["secs"], binary=binary)
+            SF, sclasses = fsup.mk_section_file(case["secs"], binary=binary, io=case.get("path"))
+            rd = routed(case, SF)
 
             def read_sec(content, b=budget):
-                return count_appends(SectionData, b, lambda: SF.read(content))
+                return count_appends(SectionData, b, lambda: rd(content))
 
             def other_sec(content):
                 O = other_storage_class(SF, "SECTIONS", binary)
@@ -354,7 +375,7 @@ def judge(case, obs, resp):
         return {"status": "error", "why": f"the MODEL exceeds the bound: {resp.get('model')}"}
     if "exc" in obs:
         return {"status": "oracle", "why": f"read raised {obs['exc']}: {obs.get('msg')} (in-domain content must be read successfully)"}
-    pre = describe_history(case)
+    pre = describe_route(case) + describe_history(case)
     n = created(obs)
     what = f"{n} elements created" if n == obs.get("appends") else f"a file of {obs.get('elements')} elements returned ({obs.get('appends')} append() calls during the read; placeholder included)"
     if not resp["holds"]:
@@ -380,6 +401,8 @@ def features(case, obs):
         f.append("all_units_became_elements" if obs["appends"] == units_of(case) else "fewer_elements_than_units")
     for h in case.get("before") or []:
         f.append(f"before={h['mode']}")
+    if case.get("path"):
+        f.append(f"path={case['path']['enc']}/{case['path']['eol']!r}")
     return f
 
 
@@ -444,6 +467,37 @@ def with_history(case):
         k = hr.choice([1, 2, 3]) if mode == "interrupt" else hr.choice([2, 2, 3, 4]) if mode == "element" else 0
         before.append({"mode": mode, "k": k, "times": hr.choice([1, 1, 2])})
     return {**case, "before": first + before}
+
+
+def with_route(case):
+    """one text case in four reaches File.read as a PATH: the content lies on disk in the ENCODING the file class
+    declares, with LF, CR LF or CR line ends, in half of these cases with a few non-ASCII characters put in.
+    case["x"] stays the text such a file holds (lines ended by LF) — what the model is asked about.  The choices
+    come from a stream of their own, so the cases and their histories are the ones generated before"""
+    import zlib
+
+    if case["binary"] or case.get("bad_byte_path") or case.get("path"):
+        return case
+    rr = random.Random(zlib.crc32(("route " + json.dumps(case, sort_keys=True)).encode()))
+    if rr.random() >= 0.25:
+        return case
+    enc = rr.choice(fsup.DISK_ENCODINGS)
+    eol = rr.choice(["\r\n", "\r\n", "\n", "\r"])
+    # what a reader of the file sees: CR LF and CR end a line as LF does
+    x = codec.dec_str(case["x"]).replace("\r\n", "\n").replace("\r", "\n")
+    if rr.random() < 0.5:
+        cs = list(x)
+        at = [i for i, ch in enumerate(cs) if ch != "\n"]
+        for i in rr.sample(at, min(len(at), rr.choice([1, 1, 2, 3]))):
+            cs[i] = rr.choice(fsup.NON_ASCII)
+        x = "".join(cs)
+    for e in (enc, "utf-8"):
+        try:
+            x.encode(e)
+            return {**case, "x": codec.enc_str(x), "path": {"enc": e, "eol": eol}}
+        except UnicodeEncodeError:
+            pass
+    return case
 
 
 def random_case0(rng):
@@ -513,7 +567,7 @@ def cases_of(chunk):
     else:
         rng = random.Random(chunk["seed"])
         for _ in range(chunk["n"]):
-            yield with_history(random_case(rng))
+            yield with_route(with_history(random_case(rng)))
 
 
 def shrinks(case):
@@ -522,6 +576,10 @@ def shrinks(case):
         if len(case["before"]) > 1:
             for i in range(len(case["before"])):
                 yield {**case, "before": case["before"][:i] + case["before"][i + 1 :]}
+    if case.get("path"):
+        yield {k: v for k, v in case.items() if k != "path"}
+        if case["path"]["eol"] != "\n":
+            yield {**case, "path": {**case["path"], "eol": "\n"}}
     x = case["x"]
     n = len(x)
     for k in (n // 2, n // 4, 1):
